@@ -1,0 +1,108 @@
+//! Commit-oracle facade: a handle around the crate-private `CommitOracle`
+//! (src/oracle.rs) for scripted sequences of check / publish / rollback /
+//! reset_for_restore.
+//!
+//! `OracleInner` (the map, `kept_since`, `commits_since_gc`) and `fp` are
+//! private to src/oracle.rs and its `len()` / `kept_since()` accessors are
+//! `#[cfg(test)]`, so the state cannot be dumped from here. `observe_*`
+//! recover what a caller can observe of it through `check` alone.
+
+use crate::error::Error;
+use crate::oracle::{CommitOracle, GC_INTERVAL};
+
+/// `GC_INTERVAL` as compiled.
+pub fn gc_interval() -> u64 {
+	GC_INTERVAL as u64
+}
+
+/// Answer of `CommitOracle::check`.
+#[derive(Debug, Clone, Copy, PartialEq, Eq)]
+pub enum Verdict {
+	Ok,
+	Conflict,
+	Retry,
+	/// Any other error (none exists in the pinned code).
+	Other,
+}
+
+impl Verdict {
+	pub fn name(self) -> &'static str {
+		match self {
+			Verdict::Ok => "ok",
+			Verdict::Conflict => "conflict",
+			Verdict::Retry => "retry",
+			Verdict::Other => "other",
+		}
+	}
+}
+
+pub struct Oracle {
+	o: CommitOracle,
+}
+
+impl Default for Oracle {
+	fn default() -> Self {
+		Self::new()
+	}
+}
+
+impl Oracle {
+	pub fn new() -> Self {
+		Oracle {
+			o: CommitOracle::new(),
+		}
+	}
+
+	pub fn check(&self, keys: &[Vec<u8>], start: u64) -> Verdict {
+		match self.o.check(keys.iter().map(|k| k.as_slice()), start) {
+			Ok(()) => Verdict::Ok,
+			Err(Error::TransactionWriteConflict) => Verdict::Conflict,
+			Err(Error::TransactionRetry) => Verdict::Retry,
+			Err(_) => Verdict::Other,
+		}
+	}
+
+	pub fn publish(&self, keys: &[Vec<u8>], seq: u64, count: u64, oldest_active: u64) {
+		self.o.publish(keys.iter().map(|k| k.as_slice()), seq, count, oldest_active)
+	}
+
+	pub fn rollback(&self, keys: &[Vec<u8>], stamp: u64) {
+		self.o.rollback(keys.iter().map(|k| k.as_slice()), stamp)
+	}
+
+	pub fn reset_for_restore(&self, max_seq: u64) {
+		self.o.reset_for_restore(max_seq)
+	}
+
+	/// The least `start` that `check` does not answer with Retry (= `kept_since`,
+	/// because Retry is answered iff `start < kept_since`); found by bisection.
+	pub fn observe_kept_since(&self) -> u64 {
+		let none: [Vec<u8>; 0] = [];
+		let (mut lo, mut hi) = (0u64, u64::MAX); // answer in [lo, hi]
+		while lo < hi {
+			let mid = lo + (hi - lo) / 2;
+			if self.check(&none, mid) == Verdict::Retry {
+				lo = mid + 1;
+			} else {
+				hi = mid;
+			}
+		}
+		lo
+	}
+
+	/// The least `start >= kept_since` for which `check([key], start)` is Ok
+	/// (= max(kept_since, recorded stamp of the key's fingerprint)); bisection.
+	pub fn observe_key(&self, key: &[u8]) -> u64 {
+		let ks = [key.to_vec()];
+		let (mut lo, mut hi) = (self.observe_kept_since(), u64::MAX);
+		while lo < hi {
+			let mid = lo + (hi - lo) / 2;
+			if self.check(&ks, mid) == Verdict::Ok {
+				hi = mid;
+			} else {
+				lo = mid + 1;
+			}
+		}
+		lo
+	}
+}
